@@ -240,6 +240,7 @@ class Ev:
         self.inprog = set()
         self._live = None
         self._paths = None
+        self.tty = {}
 
     # ------------------------------------------------------------ liveness under assumptions
     def live(self):
@@ -394,6 +395,8 @@ class Ev:
             self.inprog.discard(key)
         t = self.norm(t)
         self.memo[key] = t
+        if isinstance(t, tuple) and t and t[0] not in ("int", "phi"):
+            self.tty.setdefault(t, self.fn.locals[l]["ty"])
         return t
 
     def _local(self, l, at):
@@ -520,10 +523,37 @@ class Ev:
         if len(args) == 1 and strip_generics(path).split("::")[-1] == "len" and not path.startswith("roughenough"):
             if args[0][0] == "bytes":
                 return ("int", len(args[0][1]))
-            return ("len", args[0])
+            if self.stable_place(args[0]):
+                return ("len", args[0])
+            return ("len", args[0], (self.fn.path, b))
         if f.get("trait") in ("core::ops::index::Index", "core::ops::index::IndexMut") and len(args) == 2:
             return ("index", args[0], args[1])
         return ("call", path, args, (self.fn.path, b))
+
+    def stable_place(self, t):
+        """True when the place described by t cannot be mutated while this function runs (rooted at a shared reference
+        parameter, a constant, or a value snapshot such as a call result)."""
+        for _ in range(20):
+            if not isinstance(t, tuple) or not t:
+                return True
+            k = t[0]
+            if k in ("field", "index", "idx", "subslice", "variant", "vfield", "reader", "cast"):
+                t = t[1] if k != "cast" else t[3]
+                continue
+            if k == "param":
+                fn = self.prog.fns.get(t[1])
+                if fn is None:
+                    return False
+                ty = fn.locals[t[2]]["ty"]
+                if ty.startswith("&mut"):
+                    return False
+                if ty.startswith("&"):
+                    return True
+                return not fn.is_object(t[2])
+            if k in ("obj", "loopvar", "phi", "static"):
+                return False
+            return True
+        return False
 
     # ------------------------------------------------------------ inlining
     def inline(self, term, assume=None):
